@@ -156,7 +156,9 @@ class TlSchemas:
                     if isinstance(value, dict) and '@type' in value:
                         value = self.serialize(schema=self.get_by_name(value['@type']), data=value, boxed=True)
                     elif isinstance(value, list):  # several boxed objects one after the other, as deserialize() hands them out
-                        value = b''.join(self.serialize(schema=self.get_by_name(v['@type']), data=v, boxed=True) for v in value)
+                        # (bytes the parser could not take for an object come back in that list as they were)
+                        value = b''.join(v if isinstance(v, bytes) else self.serialize(schema=self.get_by_name(v['@type']), data=v, boxed=True)
+                                         for v in value)
                     if isinstance(value, bytes):
                         temp = b''
                         bytes_len = len(value)
